@@ -87,6 +87,7 @@ type c03Obs struct {
 	stuck      bool
 	cb         bool // callback address = the switch contract
 	cbRejected int  // genuine acknowledgement deliveries that failed because the callback contract reverted
+	lostCommit bool // its commitment disappeared while it was not acknowledged (reported once)
 	feeBlocked int  // … that failed because the relay fee (native coin) could not be credited to a blocked module account
 }
 
@@ -1322,12 +1323,55 @@ func (h *c03Harness) apply0(op string) string {
 			relBefore = w.balance(s, o.feeTok, recipient)
 			escBefore = w.balance(s, o.feeTok, w.acc[c03AccPacket])
 		}
+		// own record per (path, sequence): every OTHER packet of this source that is committed and not yet acknowledged must
+		// still be committed after this acknowledgement, whatever its outcome
+		var pendingOthers []*c03Obs
+		inflightPath, longerPrefix := 0, false
+		for _, k := range h.keys {
+			x := h.obs[k]
+			if x.src != s || x.acked || x.lostCommit || x.dst == c03Ghost || !w.hasCommitment(s, x.dst, x.seq) {
+				continue
+			}
+			if x.dst == d {
+				inflightPath++
+			}
+			if x.dst == d && x.seq == q {
+				continue
+			}
+			pendingOthers = append(pendingOthers, x)
+			if x.dst == d && strings.HasPrefix(strconv.FormatUint(x.seq, 10), strconv.FormatUint(q, 10)) {
+				longerPrefix = true // its decimal sequence starts with this packet's: store keys that are byte prefixes of each other
+			}
+		}
 		var derr error
 		pan, msg := safely(func() { _, derr = w.relayAck(s, d, q, pkt, ack, signer) })
 		if pan {
 			r.t.Fatalf("panic in ack: %s", msg)
 		}
 		after := h.view(s)
+		for _, x := range pendingOthers {
+			if !w.hasCommitment(s, x.dst, x.seq) {
+				x.lostCommit = true
+				h.find("C03:commitment-lost-by-foreign-ack", fmt.Sprintf("the acknowledgement of packet %s (accepted=%v) removed the commitment of packet %d/%d/%d, which is not acknowledged: that packet stays escrowed / burnt on the source and can never be acknowledged or refunded", key, derr == nil, x.src, x.dst, x.seq),
+					"commitment gone", "an acknowledgement touches only its own packet")
+			}
+		}
+		if derr == nil && o != nil && !forge {
+			if inflightPath >= 10 {
+				r.Count("burst.inflight≥10")
+			}
+			if longerPrefix {
+				r.Count("ack.while-longer-prefix-pending")
+				if o.ackCode != 0 && o.amount != nil {
+					r.Count("refund.while-longer-prefix-pending")
+				}
+			}
+		}
+		if derr != nil && o != nil && rec != nil && rec.ack != nil && !forge && o.received && !o.acked && !w.hasCommitment(s, d, q) {
+			// a transfer that was never acknowledged can no longer finish: its commitment is gone
+			h.find("C03:genuine-ack-rejected:commitment-gone", fmt.Sprintf("packet %s (ack code %d) was never acknowledged, yet its commitment is gone: its genuine acknowledgement is refused for ever — neither delivered-and-settled nor refunded", key, o.ackCode),
+				"rejected", "accepted exactly once")
+		}
 		if derr != nil {
 			r.Count("ack.err")
 			if after.String() != before.String() {
